@@ -4,13 +4,13 @@ go 1.23
 
 require (
 	github.com/datastax/go-cassandra-native-protocol v0.0.0
+	github.com/golang/snappy v0.0.3
+	github.com/pierrec/lz4/v4 v4.0.3
 	github.com/rs/zerolog v1.20.0
 	golang.org/x/tools v0.29.0
 )
 
 require (
-	github.com/golang/snappy v0.0.3 // indirect
-	github.com/pierrec/lz4/v4 v4.0.3 // indirect
 	golang.org/x/mod v0.22.0 // indirect
 	golang.org/x/sync v0.10.0 // indirect
 )
